@@ -7,6 +7,7 @@
 package main
 
 import (
+	"runtime"
 	"bytes"
 	"fmt"
 	"math/big"
@@ -310,7 +311,7 @@ func main() {
 	run.Set("alphabet_tags", tags)
 	run.Set("distinct_proof_strings", len(proofs))
 	run.Set("rule", "SPOCKVerify on the full product: ordered key pairs (keys x keys) x data x tags x proof kind of side 1 x proof kind of side 2 (kinds are relative to the shared (data,tag) and the side's key: honest sk*H, sk*H(other data), sk*H under the other tag, c*sk*H for a common factor c, sk*H+T with T outside G1, the identity encoding, compression bit cleared, lengths 0/47/49), each case evaluated as (pk1,p1,pk2,p2) and swapped (pk2,p2,pk1,p1). Expected verdict computed by refbls: both strings canonical, both points in G1, no identity key, sk2*p1 == sk1*p2. "+
-		"Plus: SPOCKProve == Sign == EncodeG1(sk*H) and SPOCKVerifyAgainstData == Verify == reference on keys x data x tags x candidate kinds x attributed key; ECDSA keys (P-256, secp256k1) at every key position => IsNotBLSKeyError. A case is distinct by (call, key1, key2, data, tag, kind1, kind2, swapped); cases whose proofs fail the length guard on both sides are not counted as distinct non-trivial.")
+		"Call histories of length 2 on one OS thread: all ordered pairs over an alphabet of SPOCKVerify calls (keys a,b x proof kinds honest / other data / common factor / +T3 / identity / bad header / length 47), the second call returns its reference verdict whatever the first was. Plus: SPOCKProve == Sign == EncodeG1(sk*H) and SPOCKVerifyAgainstData == Verify == reference on keys x data x tags x candidate kinds x attributed key; ECDSA keys (P-256, secp256k1) at every key position => IsNotBLSKeyError. A case is distinct by (call, key1, key2, data, tag, kind1, kind2, swapped); cases whose proofs fail the length guard on both sides are not counted as distinct non-trivial.")
 	fmt.Printf("C17 setup done at %.1fs: %d keys, %d distinct proof strings, %d scalars\n", time.Since(t0).Seconds(), len(keys), len(proofs), len(scalars))
 
 	// ---- SPOCKVerify product
@@ -395,6 +396,54 @@ func main() {
 			Data: ev.Hex(data[0]), Tag: tags[0], Exp: "false", Got: "same", Note: "second proof = honest + torsion point of order 3 (satisfies the pairing equation, outside G1)"})
 	}
 	fmt.Printf("C17 SPOCKVerify product done at %.1fs: %d evaluations, expected true %d / false %d\n", time.Since(t0).Seconds(), run.Get("evaluations"), nTrue, nFalse)
+
+	// ---- call histories of length 2 on one OS thread: SPOCKVerify is a pure function, so a verdict
+	// must not depend on the call made just before it (per-thread caches of decoded proofs, scratch
+	// state in the C layer). Alphabet: keys {a, b} x (data 0, tag 0) x proof kinds {honest, other data,
+	// common factor, +T3 outside G1, identity encoding, compression bit cleared, length 47} on either
+	// side (49 x 4 key pairs, reduced to the cases with at least one honest/common-factor side);
+	// ALL ordered pairs (i, j): call i, then call j; j must give its reference verdict.
+	{
+		type hc struct {
+			k1, k2 *key
+			p1, p2 *proof
+			n      string
+			exp    bool
+		}
+		var hcs []hc
+		pick := []int{0, 1, 3, 4, 5, 6, 8}
+		for _, a := range []int{0, 1} {
+			for _, b := range []int{0, 1} {
+				for _, x := range pick {
+					for _, y := range pick {
+						if x != 0 && y != 0 && !(x == 3 && y == 3) {
+							continue
+						}
+						p1, p2 := kinds[a][0][0][x], kinds[b][0][0][y]
+						hcs = append(hcs, hc{keys[a], keys[b], p1, p2, fmt.Sprintf("SPOCKVerify(%s:%s, %s:%s)", keys[a].name, kindNames[x], keys[b].name, kindNames[y]), oracle(keys[a], p1, keys[b], p2)})
+					}
+				}
+			}
+		}
+		run.Set("pairwise_history_alphabet", len(hcs))
+		ev.Par(len(hcs), func(i int) {
+			runtime.LockOSThread()
+			defer runtime.UnlockOSThread()
+			a := hcs[i]
+			for _, b := range hcs {
+				_, _ = crypto.SPOCKVerify(a.k1.pk, a.p1.b, a.k2.pk, a.p2.b)
+				got, err := crypto.SPOCKVerify(b.k1.pk, b.p1.b, b.k2.pk, b.p2.b)
+				run.Add("evaluations", 2)
+				if err != nil || got != b.exp {
+					run.Violation("SPOCKVerify:history:verdict-depends-on-previous-call", fmt.Sprintf("%s right after %s returns (%v,%v), reference %v", b.n, a.n, got, err, b.exp),
+						replay{Call: "SPOCKVerify after another SPOCKVerify", Pk1: ev.Hex(b.k1.pk.Encode()), Sk1: ev.Hex(refbls.ScalarBytes(b.k1.sk)), Proof1: ev.Hex(b.p1.b), Pk2: ev.Hex(b.k2.pk.Encode()), Sk2: ev.Hex(refbls.ScalarBytes(b.k2.sk)), Proof2: ev.Hex(b.p2.b),
+							Data: ev.Hex(data[0]), Tag: tags[0], Exp: fmt.Sprint(b.exp), Got: fmt.Sprintf("%v,%v", got, err), Note: "previous call: " + a.n})
+				}
+			}
+			run.Distinct("hist/" + a.n)
+		})
+		fmt.Printf("C17 pairwise histories done at %.1fs\n", time.Since(t0).Seconds())
+	}
 
 	// ---- SPOCKProve == Sign, SPOCKVerifyAgainstData == Verify
 	type pv struct{ k, d, g int }
